@@ -702,7 +702,8 @@ impl Walrus {
         let mut planned_bytes: usize = 0;
         let chain_len_at_plan = chain.len();
 
-        while cur_idx < chain.len() && planned_bytes < max_bytes {
+        // Always plan the first range, so that a zero budget still yields the promised one entry
+        while cur_idx < chain.len() && (planned_bytes < max_bytes || plan.is_empty()) {
             let block = chain[cur_idx].clone();
             if cur_off >= block.used {
                 if info_guard.is_some() {
@@ -716,7 +717,7 @@ impl Walrus {
                 continue;
             }
 
-            let mut want = (max_bytes - planned_bytes) as u64;
+            let mut want = max_bytes.saturating_sub(planned_bytes) as u64;
 
             if planned_bytes == 0 {
                 // This is the start of planning a new batch read
